@@ -776,6 +776,11 @@ func genSession(c *Ctx) {
 		val.L(val.L(val.L(val.S("a")), val.N(0), status(401))),
 		val.L(val.L(val.L(val.S("t")), val.N(1), status(202))),
 	}
+	// lists a callback may well build (strings.Split of a query, defaults merged with requested topics): the default
+	// topic "" next to named ones, a name twice, blank and padded names - the provider is owed the list as chosen
+	for _, l := range [][]string{{"news", ""}, {"", "a"}, {"a", "a"}, {"a", "", "a", ""}, {" ", "a ", "\t"}} {
+		ons = append(ons, val.L(val.L(val.Strs(l), val.N(1), val.L())))
+	}
 	baseOns := len(ons)
 	// OnSession has put a Content-Type on the response (preparing an answer of its own) and then
 	// accepts, accepts with a status, or rejects
